@@ -2,6 +2,7 @@
 import operator as op
 
 from vlib import symeval as se
+from vlib.core import CaseTimeout
 from vlib import symmon
 
 PID = 'C09'
@@ -221,6 +222,8 @@ def classify(a, b, opname, answer):
     diff_in = a - b
     try:
         d = simp(diff_in)
+    except CaseTimeout:
+        raise
     except Exception as exc:  # pylint: disable=broad-except
         return f'symop:simplify-raised:{type(exc).__name__}', None
     envs = [{n: v for n in se.INT_VARS} for v in (-2, -1, 1, 2, 3)]
@@ -273,6 +276,8 @@ def run_case(idx, rng, tier, ctx):
         symmon.MON.begin(None)
         try:
             ans = S.symbolic_op(a, fn, b)
+        except CaseTimeout:
+            raise
         except Exception as exc:  # pylint: disable=broad-except
             cnt['outcome_raised'] += 1
             outcomes[name] = 'raised ' + type(exc).__name__
